@@ -178,7 +178,7 @@ MANIFEST = {
             "performed; oracle: every logged entry is system-flagged, payload-less, delivered while RUNNING, "
             "count(topic, sender) between demanded and performed (equal wherever the text is unambiguous); tick timer "
             "armed with exactly the configured (symbolic) period, one tick per expiry. Plus the one-step L1 unit "
-            "of C01 as emission table from any state/flags.",
+            "of C01 as emission table from any state/flags.; a module pausing itself in its start callback; the tick configured from a start callback at loop start",
     "note": "call order per job is concrete (enumerated skeletons; thorough: every sequence of <= 4 transitions of X x "
             "subscriber RUNNING / PAUSED), free per job: errno left by callbacks, quit code, non-allocating flag bits "
             "of X, tick period; not asserted because the text leaves it open: own transitions, refused start, "
